@@ -38,6 +38,14 @@ def gen_cases(seed, tier):
             rules.append(["additive", {"equation": "Rb = %s + %s" % (rng.choice(sp), rng.choice(sp))}, rng.choice(["repeated", "dt"])])
         spec["rules"] = rules
         pts = [{s: float(rng.randint(0, 6)) for s in spec["x0"]} for _ in range(3)]
+        # one parameter-dictionary OBJECT reused for several mass-action reactions with different reactants (deg = {"k": kdeg} handed to A -> 0 and
+        # B -> 0): each reaction keeps its own rate law and its own exported kinetic law (seeded changes S8_C01 / S8_C14, as S6_C06: the model
+        # wrote the implicit 'species' string into the caller's dictionary)
+        if rng.random() < 0.3:
+            ma_ = [rx for rx in spec["reactions"] if rx["type"] == "massaction" and "species" not in rx["params"]]
+            if len(ma_) >= 2:
+                for rx in ma_[1:]: rx["params"] = dict(ma_[0]["params"])
+                spec["shared_param_dicts"] = True
         cases.append({"spec": spec, "points": pts, "V": rng.choice([0.5, 2.0])})
     return cases
 
